@@ -684,7 +684,7 @@ THEOREMS.update({
     "C01": ("Dirk.Props.C01", ["Dirk.C01_monotone", "Dirk.C01", "Dirk.C01_index", "Dirk.C01_with_imports", "Dirk.C01_lowering_import_counterexample",
                                "Dirk.C01_legacy_counterexample", "Dirk.C01_kernel_is_source"]),
     "C02": ("Dirk.Props.C02", ["Dirk.C02_increasing", "Dirk.C02", "Dirk.C02_with_imports", "Dirk.C02_lowering_import_counterexample",
-                               "Dirk.C02_legacy_counterexample", "Dirk.C02_kernel_is_source"]),
+                               "Dirk.C02_legacy_counterexample", "Dirk.C02_kernel_is_source", "Dirk.facts_store_options"]),
 })
 
 def run_perm_configs(rep, dh, wd, configs, label="perms"):
@@ -2986,7 +2986,7 @@ THEOREMS.update({
                                "Dirk.Dkg.C17_commit_complete", "Dirk.Dkg.C17_independent_names", "Dirk.Dkg.C17_lifecycle_all_histories",
                                "Dirk.Dkg.C17_kernel_is_source", "Dirk.Dkg.C17_legacy_counterexample"]),
     "C03": ("Dirk.Props.C03", ["Dirk.C03_recorded_before_release", "Dirk.C03_refuses_after_crash", "Dirk.C03_released_never_slashable",
-                               "Dirk.facts_sync_writes", "Dirk.facts_action_bytes", "Dirk.facts_result_switches_total"]),
+                               "Dirk.facts_sync_writes", "Dirk.facts_store_options", "Dirk.facts_action_bytes", "Dirk.facts_result_switches_total"]),
     "C04": ("Dirk.Props.C04", ["Dirk.Conc.C04_mutual_exclusion", "Dirk.Conc.C04_commit_atomic", "Dirk.Conc.C04_linearizable",
                                "Dirk.Conc.C04_real_time_order", "Dirk.C04_footprint_attest", "Dirk.C04_trace_is_protocol"]),
     "C15": ("Dirk.Props.C15", ["Dirk.Conc.C15_progress", "Dirk.Conc.C15_measure", "Dirk.Conc.C15_complete", "Dirk.Conc.C15_needs_global"]),
@@ -2997,7 +2997,7 @@ THEOREMS.update({
                                "Dirk.C09_live_prop_rule", "Dirk.C09_live_att", "Dirk.C09_live_prop", "Dirk.C09_kernel_is_source"]),
     "C11": ("Dirk.Props.C11", ["Dirk.C11_codec_roundtrip", "Dirk.C11_restart", "Dirk.C11_import_export_same_decisions",
                                "Dirk.C11_export_exact", "Dirk.C11_last_is_highest"]),
-    "C10": ("Dirk.Props.C10", ["Dirk.C10_never_lowers", "Dirk.C10_protects", "Dirk.C10_composes", "Dirk.C10_range_any", "Dirk.C10_import_command_keeps_invariants", "Dirk.C10_refuses_after_prop",
+    "C10": ("Dirk.Props.C10", ["Dirk.C10_never_lowers", "Dirk.C10_protects", "Dirk.C10_composes", "Dirk.C10_range_any", "Dirk.C10_import_command_keeps_invariants", "Dirk.C10_kernel_is_source", "Dirk.C10_refuses_after_prop",
                                "Dirk.C10_refuses_after_att", "Dirk.C10_bad_metadata", "Dirk.C10_parse_error_no_change",
                                "Dirk.C10_legacy_counterexample"]),
     "C07": ("Dirk.Props.C07Refine", ["Dirk.C07_kernel_is_source", "Dirk.C07_check_refines_spec", "Dirk.C07_served_has_bearing", "Dirk.C07_scan_eq_spec", "Dirk.C07_default_deny", "Dirk.C07_unknown_client", "Dirk.C07_no_identity",
